@@ -1,7 +1,19 @@
 import warnings; warnings.simplefilter('ignore')
-import cirq
-q=cirq.LineQubit.range(2)
-c=cirq.Circuit(cirq.Moment(cirq.X(q[0])), cirq.Moment(cirq.measure(q[0],key='a')), cirq.Moment(cirq.measure(q[1],key='a')), cirq.Moment(cirq.X(q[1])))
-out=cirq.synchronize_terminal_measurements(c)
-print(c); print(out)
-print(cirq.Simulator().run(c).records, cirq.Simulator().run(out).records)
+import cirq, numpy as np
+q=cirq.LineQubit.range(3)
+c=cirq.Circuit(cirq.H(q[0]), cirq.Z(q[0]), cirq.measure_single_paulistring(cirq.X(q[0]), key='m'))
+out=cirq.drop_diagonal_before_measurement(c)
+print(out)
+print(cirq.Simulator(seed=1).run(c,repetitions=5).histogram(key='m'), cirq.Simulator(seed=1).run(out,repetitions=5).histogram(key='m'))
+# factor_density_matrix
+from cirq.linalg import transformations as tr
+rho=np.zeros((8,8),dtype=complex); 
+a=cirq.testing.random_density_matrix(4, random_state=1); b=cirq.testing.random_density_matrix(2, random_state=2)
+rho=np.kron(a,b).reshape((2,)*6)
+try:
+    e,r=tr.factor_density_matrix(rho,[2],validate=True); print('ok', np.allclose(e.reshape(2,2),b))
+except Exception as ex: print('ERR',ex)
+rho2=np.kron(b,a).reshape((2,)*6)
+try:
+    e,r=tr.factor_density_matrix(rho2,[0],validate=True); print('ok', np.allclose(e.reshape(2,2),b))
+except Exception as ex: print('ERR',ex)
